@@ -269,13 +269,26 @@ class FileHeaderRule(BaseLintRule):  # thailint: ignore[srp]
         atemporal_detector = AtemporalDetector()
         atemporal_violations = atemporal_detector.detect_violations(header)
 
+        header_lines = header.split("\n")
+        file_lines = (context.file_content or "").split("\n")
         for pattern, description, line_num in atemporal_violations:
+            file_line = self._file_line_of(header_lines[line_num - 1], file_lines, line_num)
             violations.append(
                 self._violation_builder.build_atemporal_violation(
-                    pattern, description, str(context.file_path or ""), line_num
+                    pattern, description, str(context.file_path or ""), file_line
                 )
             )
         return violations
+
+    @staticmethod
+    def _file_line_of(header_line: str, file_lines: list[str], fallback: int) -> int:
+        """Line of the file that holds a line of the extracted header (the header text starts further down)."""
+        needle = header_line.strip()
+        if needle:
+            for number, line in enumerate(file_lines, start=1):
+                if needle in line:
+                    return number
+        return fallback
 
     def _filter_ignored_violations(
         self, violations: list[Violation], context: BaseLintContext
